@@ -37,8 +37,10 @@ claim("C03",
 claim("C04",
       "Lean theorems KB.Props.C04 over the interleaving LTS KB.Sys (any number of clients, any schedule, any expected revisions incl. future/"
       "malformed, any placement of storage faults): committed < every unreported dealt revision; slot accounting (every dealt revision above "
-      "committed is in a slot xor owned by exactly one in-flight request); no stall; at quiescence committed = dealt; every returned request's "
-      "revision is resolved. Correspondence: gated schedules (every storage call a script step) on three engines.",
+      "committed is in a slot xor owned by exactly one in-flight request xor held by the asynchronous repair between its read and its commit); no stall; "
+      "at quiescence (no client AND no repair mid-way; the weaker hypothesis is refuted by a decided witness) committed = dealt; every returned request's "
+      "revision is resolved; the slot ring of the real code behaves as the model's slot map (regenerated order facts + ring_window_injective). "
+      "Correspondence: gated schedules (every storage call a script step, incl. the repair loop's own calls) on three engines.",
       TB + "Atomicity granularity of KB.Sys (one Deal / one batch commit / one snapshot read / one slot store per step); Go scheduler fairness for liveness.",
       "Lean 4 proof (inductive invariant over all schedules of an LTS) + scheduled differential correspondence", "DESIGN.md §5 C04")
 claim("C11",
@@ -120,8 +122,11 @@ claim("C09",
       "was applied; a definite conflict applied nothing; an unknown outcome is reported as the uncertain error; the retry's own revision is resolved; "
       "compaction is capped below the oldest queued revision; an unrepaired write stays queued; CONVERGENCE: in every quiescent state (nothing in flight, "
       "queue drained) the last applied write of every key is the last event handed to the watchers - for all schedules and all fault placements "
-      "(after fixes 35be7da, f99b060). Correspondence: every single fault placement x {applied, not} x repair outcomes on create/update/delete + random sequences, three engines.",
-      TB + "Keys over the alphabet (the counterexample for keys containing the split byte is proved); non-empty, non-tombstone values; the retry step is atomic in the LTS.",
+      "(after fixes 35be7da, f99b060). The repair is modelled NON-atomically (read+deal, then commit+report+pop): client writes may land in between - the repair "
+      "then loses its compare-and-swap, its dealt revision is reported invalid, the head is popped and the client's write stays (repair_loses_to_client_write). "
+      "Correspondence: every single fault placement x {applied, not} x repair outcomes on create/update/delete, 63 stepped interleavings of the repair with client "
+      "writes / compactions / a second queued write, + random sequences, three engines.",
+      TB + "Keys over the alphabet (the counterexample for keys containing the split byte is proved); non-empty, non-tombstone values; granularity: the repair's read+deal and its commit+report+pop are single steps.",
       "Lean 4 proof (coverage invariant over all schedules with faults) + fault-placement differential correspondence", "DESIGN.md §5 C09")
 claim("C15",
       "Lean theorems KB.Props.C15: IF the engine timestamp a new leader starts from dominates every stored revision THEN its state is a well-formed initial "
